@@ -6,6 +6,7 @@ import (
 	"fmt"
 
 	corev1 "k8s.io/api/core/v1"
+	"k8s.io/apimachinery/pkg/api/resource"
 	metav1 "k8s.io/apimachinery/pkg/apis/meta/v1"
 	"k8s.io/apimachinery/pkg/types"
 	"k8s.io/utils/ptr"
@@ -21,7 +22,7 @@ var InjectKinds = []string{
 	"pg-bad-timestamps", "pg-no-pods", "pod-bad-fraction", "pod-bad-gpumemory", "pod-bad-numdevices", "pod-unknown-subgroup",
 	"pod-missing-podgroup", "pod-huge-request", "node-no-labels-zero", "node-bad-gpu-labels", "node-negative", "br-missing-pod",
 	"br-missing-node", "delete-queue-of-running", "delete-podgroup-of-running", "delete-node-of-running",
-	"topology-no-levels", "pg-unknown-topology", "pg-unknown-topology-level", "subgroup-unknown-topology",
+	"pvc-no-storageclass", "topology-no-levels", "pg-unknown-topology", "pg-unknown-topology-level", "subgroup-unknown-topology",
 }
 
 var badNumbers = []string{"NaN", "Inf", "-Inf", "-1", "0", "1e309", "abc", "0x1p-2", " 0.5", "0.5 ", "1e-400", "99999999999999999999", "+0.5", "-0", ""}
@@ -109,6 +110,22 @@ func (r *Run) inject(kind string, n int) {
 		_ = r.API.Tracker.Add(pg)
 		_ = r.API.Tracker.Add(newPod(name+"-p0", name, func(p *PodSpec) { p.SubGroup = "a" }))
 		_ = r.API.Tracker.Add(newPod(name+"-p1", name, func(p *PodSpec) { p.SubGroup = "b" }))
+	case "pvc-no-storageclass":
+		// a claim without a storage class (statically provisioned volume, or no default class): legal, and a pod using it
+		pvc := &corev1.PersistentVolumeClaim{TypeMeta: metav1.TypeMeta{APIVersion: "v1", Kind: "PersistentVolumeClaim"},
+			ObjectMeta: metav1.ObjectMeta{Name: name + "-pvc", Namespace: NS, UID: types.UID("pvc-" + name)},
+			Spec: corev1.PersistentVolumeClaimSpec{AccessModes: []corev1.PersistentVolumeAccessMode{corev1.ReadWriteOnce},
+				Resources: corev1.VolumeResourceRequirements{Requests: corev1.ResourceList{corev1.ResourceStorage: resource.MustParse("1Gi")}}}}
+		if n%3 == 1 {
+			pvc.Spec.StorageClassName = ptr.To("")
+		} else if n%3 == 2 {
+			pvc.Spec.StorageClassName = ptr.To("no-such-class")
+		}
+		_ = r.API.Tracker.Add(pvc)
+		_ = r.API.Tracker.Add(newPG(name, healthyQueue, 1))
+		pod := newPod(name+"-p0", name, nil)
+		pod.Spec.Volumes = append(pod.Spec.Volumes, corev1.Volume{Name: "data", VolumeSource: corev1.VolumeSource{PersistentVolumeClaim: &corev1.PersistentVolumeClaimVolumeSource{ClaimName: pvc.Name}}})
+		_ = r.API.Tracker.Add(pod)
 	case "topology-no-levels", "pg-unknown-topology", "pg-unknown-topology-level", "subgroup-unknown-topology":
 		// topology constraints that name nothing usable: a Topology without levels, a missing Topology, a level the
 		// Topology does not define (required or preferred, by variant), the same on a sub-group
